@@ -1,5 +1,5 @@
 (* C07 — property theorems only: statement, `exact <lemma>`, Print Assumptions. *)
-From GL Require Import VM.Opcode VM.OpcodeFacts VM.Proto VM.WfProto VM.Skeleton VM.WfFacts.
+From GL Require Import VM.Opcode VM.OpcodeFacts VM.Proto VM.WfProto VM.Skeleton VM.WfFacts VM.ScanFacts.
 
 (* 1. The instruction codec of opcode.go: creation followed by extraction gives back every in-range
       field; the created word is a uint32. *)
@@ -79,6 +79,23 @@ Theorem wf_regs_bounded : forall f pc i,
   Forall (fun r => 0 <= r < f_nregs f) (i_regs i).
 Proof. exact wf_regs_bounded_lemma. Qed.
 Print Assumptions wf_regs_bounded.
+
+(* The heads the checker works with are the instruction boundaries of the linear layout: a head
+   whose instruction owns k further words (closure captures, MOVEN continuations, SETLIST
+   extension) is followed by exactly k non-head words carrying the group's tag, then the next head.
+   (Position 0 is a head: entry_ok below. No well-formedness hypothesis is needed.) *)
+Theorem heads_are_boundaries : forall f pc w,
+  zth (f_code f) pc = Some w -> is_head (tags_of f) pc = true ->
+  let k := fst (group_of f w) in
+  (forall j, 1 <= j <= k -> pc + j < len (f_code f) ->
+     zth (tags_of f) (pc + j) = Some (snd (group_of f w)) /\ snd (group_of f w) <> 0) /\
+  (0 <= k -> pc + 1 + k < len (f_code f) -> is_head (tags_of f) (pc + 1 + k) = true).
+Proof. exact heads_are_boundaries_lemma. Qed.
+Print Assumptions heads_are_boundaries.
+
+Theorem entry_is_head : forall f, wf_fn f = true -> pc_ok f 0.
+Proof. exact entry_ok. Qed.
+Print Assumptions entry_is_head.
 
 (* 5. wf_proto on a tree = wf_fn on every prototype of it. *)
 Theorem wf_proto_all : forall p, wf_proto p = true -> forall q, In q (flatten p) -> wf_fn (view q) = true.
